@@ -258,11 +258,18 @@ def run_A(case):
             vp[n] = vals[n] + h * f[n]
             vm[n] = vals[n] - h * f[n]
         want = (ev_e(vp, t + h) - ev_e(vm, t - h)) / (2 * h)
-        if not C.finite(want, got):
+        # the same difference with twice the step: their gap estimates the truncation error of `want`
+        # (third derivative along the flow times h^2; large for steep expressions)
+        vp2, vm2 = dict(vals), dict(vals)
+        for n in snames:
+            vp2[n] = vals[n] + 2 * h * f[n]
+            vm2[n] = vals[n] - 2 * h * f[n]
+        want2 = (ev_e(vp2, t + 2 * h) - ev_e(vm2, t - 2 * h)) / (4 * h)
+        if not C.finite(want, got, want2):
             continue
         res["evals"] += 1
         res["counters"]["fd_points"] += 1
-        err = float(np.max(np.abs(want - got) / (1 + np.abs(want))))
+        err = float(np.max((np.abs(want - got) - 2 * np.abs(want2 - want)) / (1 + np.abs(want))))
         if err > 1e-6:
             res["violations"].append({
                 "kind": "der-mismatch", "mech": "C16|der-not-total-derivative",
